@@ -225,7 +225,10 @@ def main(chk):
     for msg in viol[:2]:
       # F20: name reservations of the running module are not visible inside a function-style lifted call on it
       f20 = any(op['k'] == 'G' for op in prog) and 'specification NameInUseError' in msg
-      chk.violation(key + (':name-clash-inside-lifted-block' if f20 else ''), msg, beh)
+      # F21: an nn.jit-ed helper applied to the running module keeps / skips module state (auto-name cursors): stale closure
+      # state of the cached transform, and no state re-import at all on a trace-cache hit
+      f21 = any(op['k'] == 'G' and op['lift'] == 'jit' for op in prog) and any(op['k'] == 'E' and not op['n'] for op in prog)
+      chk.violation(key + (':name-clash-inside-lifted-block' if f20 else ':jit-block-auto-names' if f21 else ''), msg, beh)
   chk.sample({'spec': 'LinenScope(lifted)', 'program': sim['exports'][0]['prog']})
   chk.cov['behaviours_replayed'] = n
   chk.cov['cond_switch_wraps'] = nwrap
